@@ -1561,7 +1561,7 @@ func vProcOp(t []string) string {
 		returned := 1
 		select {
 		case <-done:
-		case <-time.After(2 * time.Second):
+		case <-time.After(10 * time.Second): // (normally milliseconds; the bound is generous because checks run side by side on a loaded machine)
 			returned = 0
 		}
 		// drain the arrival notifications of the immediate-mode requests
